@@ -39,6 +39,26 @@
 (*                    through another port is judged like at Misbehave.     *)
 (*   Unban(i)         the ban is lifted in the store                        *)
 (*   Drop(p)          the remote side closes the connection                 *)
+(*   StoreBan(i,d,k)  a ban record for IP i is in the ban store although    *)
+(*                    BanPeer was not called in this history: the store is  *)
+(*                    a bbolt bucket that outlives the process, written by  *)
+(*                    banStore.BanIPNet(ipNet, reason, duration).  d = 1: a  *)
+(*                    ban that lapsed half an hour ago (IsBanned -> Status  *)
+(*                    answers "not banned" and purges it), d = 2: half an   *)
+(*                    hour left, d = 3: a day left.  Only for an IP no slot *)
+(*                    is connected to (nobody is disconnected by it).       *)
+(*                                                                          *)
+(*   off      offset of ChainService.timeSource (btcd MedianTimeSource) in  *)
+(*            hours, an ENVIRONMENT dimension chosen in Init: before the    *)
+(*            history starts, peers whose clocks are off by that much have  *)
+(*            sent their version messages (OnVersion ->                     *)
+(*            timeSource.AddTimeSample; the median of >= 5 samples becomes  *)
+(*            the offset of AdjustedTime()), and the peers of the history   *)
+(*            stamp their version messages with the same clock.  The ban    *)
+(*            store compares its absolute expiries with time.Now() and      *)
+(*            IsBanned returns the store's answer, so NOTHING in the model  *)
+(*            depends on off - that is the point: the replay shows that the *)
+(*            real code does not either.                                    *)
 (*                                                                          *)
 (*   ban[i]   0 = IP i not banned, else the recorded banman.Reason          *)
 (*   ph[p]    0 no connection, 1 handshake started (our version sent),      *)
@@ -60,11 +80,13 @@ CONSTANTS NP,        \* connection slots
           NJ,        \* ports per IP
           MaxOps,    \* actions per history
           Split,     \* TRUE: BanPeer calls are taken in two steps (BanBegin / BanCommit)
+          Offs,      \* offsets of the network-adjusted clock Init chooses from: 0, 1 (+1 h), 2 (-1 h)
+          StoreBans, \* TRUE: StoreBan actions
           FixBanAllOfHost
 
-VARIABLES ban, ph, ad, pend, nops, abs, act, viol
+VARIABLES ban, ph, ad, pend, off, nops, abs, act, viol
 
-vars == <<ban, ph, ad, pend, nops, abs, act, viol>>
+vars == <<ban, ph, ad, pend, off, nops, abs, act, viol>>
 
 NoAddr == <<0, 0>>
 NoPend == <<0, 0, 0>>      \* pend = <<i, j, k>>: a BanPeer((i,j), k) whose ban write has not committed yet
@@ -72,12 +94,14 @@ NoPend == <<0, 0, 0>>      \* pend = <<i, j, k>>: a BanPeer((i,j), k) whose ban 
 Obs == [ban  |-> [i \in 1..NI |-> IF ban[i] = 0 THEN <<0, 0>> ELSE <<1, ban[i]>>],
         ad   |-> [p \in 1..NP |-> ad[p]],
         conn |-> [p \in 1..NP |-> IF ph[p] # 0 THEN 1 ELSE 0],
-        kept |-> [p \in 1..NP |-> IF ph[p] = 3 THEN 1 ELSE 0]]
+        kept |-> [p \in 1..NP |-> IF ph[p] = 3 THEN 1 ELSE 0],
+        off  |-> off]
 
 Act(op, p, i, j, f, k, res) ==
   [op |-> op, p |-> p, i |-> i, j |-> j, f |-> f, k |-> k, res |-> res]
 
 Finish(a) ==
+  /\ off'  = off
   /\ act'  = a
   /\ abs'  = AbsNext(abs, a, Obs')
   /\ viol' = Viol(abs, Obs, a, abs', Obs')
@@ -146,6 +170,14 @@ Unban(i) ==
   /\ UNCHANGED <<ph, ad, pend>>
   /\ Finish(Act("Unban", 0, i, 0, 0, 0, "ok"))
 
+StoreBan(i, d, k) ==
+  /\ StoreBans
+  /\ \A q \in 1..NP : ad[q][1] # i
+  /\ pend = NoPend \/ pend[1] # i
+  /\ ban' = [ban EXCEPT ![i] = IF d = 1 THEN 0 ELSE k]
+  /\ UNCHANGED <<ph, ad, pend>>
+  /\ Finish(Act("StoreBan", 0, i, 0, d, k, "ok"))
+
 Drop(p) ==
   /\ ph[p] # 0
   /\ UNCHANGED <<ban, pend>>
@@ -157,6 +189,7 @@ Init ==
   /\ ph = [p \in 1..NP |-> 0]
   /\ ad = [p \in 1..NP |-> NoAddr]
   /\ pend = NoPend
+  /\ off \in {IF c = 2 THEN -1 ELSE c : c \in Offs}
   /\ nops = 0
   /\ abs = AbsInit
   /\ act = Act("Init", 0, 0, 0, 0, 0, "ok")
@@ -172,6 +205,7 @@ Next ==
      \/ BanCommit
      \/ \E i \in 1..NI : Unban(i)
      \/ \E p \in 1..NP : Drop(p)
+     \/ \E i \in 1..NI : \E d \in 1..3 : StoreBan(i, d, IF d = 1 THEN 3 ELSE 2 + d)
 
 Spec == Init /\ [][Next]_vars
 
@@ -182,6 +216,6 @@ TypeOK ==
 NoViolation == viol = {}
 
 \* nops is a bound, not part of a state's identity
-State == [ban |-> ban, ph |-> ph, ad |-> ad, pend |-> pend]
-View0 == <<ban, ph, ad, pend, nops>>
+State == [ban |-> ban, ph |-> ph, ad |-> ad, pend |-> pend, off |-> off]
+View0 == <<ban, ph, ad, pend, off, nops>>
 =============================================================================
